@@ -11,6 +11,8 @@
 (*              Judged against the state before the last Req; leaves the     *)
 (*              model state alone                                            *)
 (*   CrashGo    the same, and the history continues on that copy             *)
+(*   Bulk       100+ tasks created, paged listing and executing set before   *)
+(*              and after a clean restart                                    *)
 (* Verdict level: success/failure of every answer, every listed task (id,    *)
 (* script, dbrps, vars, status, template, executing) and template.  Drift    *)
 (* level (printed, never a rejection): exact status code, stored error flag, *)
@@ -37,11 +39,26 @@ NoErr(v) == [v EXCEPT !.err = FALSE]
 
 Drift(what) == PrintT(<<"DRIFT", what, l>>)
 
+\* paged and filtered list requests return the corresponding slice of the catalogue, in id order:
+\*   o1  offset=1      l1  limit=1      po1  pattern=<first id>* (matches every id of the universe, the ids
+\*   being prefix related), offset=1    pt2  pattern=<second id>      to1  templates, offset=1
+Rest(s) == IF s = <<>> THEN <<>> ELSE Tail(s)
+First(s) == IF s = <<>> THEN <<>> ELSE <<Head(s)>>
+PagesOK(m) ==
+    LET ids == SelectSeq(TaskOrder, LAMBDA t : m.T[t] # NoTask)
+        pids == SelectSeq(TplOrder, LAMBDA p : m.P[p] # "none")
+    IN /\ Ln.pages.o1 = Rest(ids)
+       /\ Ln.pages.l1 = First(ids)
+       /\ Ln.pages.po1 = Rest(ids)
+       /\ Ln.pages.pt2 = SelectSeq(ids, LAMBDA t : t = TaskOrder[2])
+       /\ Ln.pages.to1 = Rest(pids)
+
 \* the logged catalogue is the one machine state m shows (verdict level)
 ShowsV(m) ==
     /\ Ln.extra = <<>>
     /\ \A t \in TaskIds : NoErr(Ln.tasks[t]) = NoErr(TaskView(m, t))
     /\ \A p \in TplIds : Ln.tpls[p] = m.P[p]
+    /\ PagesOK(m)
 \* ... with the drift-level observables reported on the side
 Shows(m) ==
     /\ ShowsV(m)
@@ -148,7 +165,23 @@ TrCrashGo ==
     /\ UNCHANGED up
     /\ pre' = NoPre
 
-TrNext == TrReset \/ TrReq \/ TrRestart \/ TrEnv \/ TrCrash \/ TrCrashGo
+\* A catalogue larger than one page of Open() / of the default list limit (ids outside the small
+\* universe, so judged directly by the property): n valid create requests, every one accepted; a
+\* client paging through the list with offset/limit sees exactly the created ids, each once, in id
+\* order, the same as one unpaged request; executing = the enabled ones - before and after a clean restart.
+BulkObs(o) ==
+    /\ o.err = ""
+    /\ o.paged = Ln.created
+    /\ o.all = Ln.created
+    /\ o.exec = Ln.enabled
+TrBulk ==
+    /\ IsEv("Bulk")
+    /\ Ln.rejected = 0 /\ Len(Ln.created) = Ln.n
+    /\ BulkObs(Ln.before)
+    /\ BulkObs(Ln.after)
+    /\ UNCHANGED <<vars, pre>>
+
+TrNext == TrReset \/ TrReq \/ TrRestart \/ TrEnv \/ TrCrash \/ TrCrashGo \/ TrBulk
 TrSpec == TrInit /\ [][TrNext]_tvars
 
 HW == HWMark(l)
